@@ -61,7 +61,7 @@ contract('Buffer.notify_upstream_of_available_space', props=['C03', 'C05'], modu
                    'self._next_cycle_time_offset', '$trace'])
 
 ghost_after('PartHandler.give_part', '<entry>', g_ok='True', g_cb='0')
-contract('PartHandler.give_part@Buffer', props=['C05', 'C02', 'C15', 'C03', 'C08'], for_cls=['Buffer'], args={'part': 'ref:Part'},
+contract('PartHandler.give_part@Buffer', props=['C05', 'C02', 'C15', 'C03', 'C08', 'C17'], for_cls=['Buffer'], args={'part': 'ref:Part'},
          result='bool',
          requires={'initialised': 'self._env is not None and alive(self._env)', 'clock_nonneg': 'self._env._now >= 0',
                    'part_alive': 'part is None or alive(part)',
@@ -112,7 +112,7 @@ SUFFIX = ('len(self._buffer) == old(len(self._buffer)) - g_n and g_n >= 0 and '
           'all(self._buffer[i] == old(seq(self._buffer))[g_n + i] for i in range(len(self._buffer)))')
 B_LOOP_INVS = {n: B_INVS[n] for n in ('storage_exists', 'level_is_the_number_of_stored_parts',
                                       'arrival_stamps_ordered_and_not_in_the_future')}
-contract('Buffer._pass_part_downstream', props=['C05', 'C02', 'C03', 'C15', 'C08'], args={},
+contract('Buffer._pass_part_downstream', props=['C05', 'C02', 'C03', 'C15', 'C08', 'C17'], args={},
          requires={'initialised': 'self._env is not None and alive(self._env)', 'clock_nonneg': 'self._env._now >= 0'},
          ensures={
              'C05,C02/items_leave_in_arrival_order': SUFFIX,
